@@ -26,7 +26,8 @@ MISSING_OK = ('float16', 'float32', 'float64', 'complex64', 'complex128', 'objec
 OPS = ('f_fillna_dir1', 's_reindex', 's_shift', 's_concat', 's_insert', 's_assign_el', 's_assign_arr', 's_assign_series', 's_assign_series_partial', 'f_assign_series_partial', 's_fillna', 's_fillna_series', 's_overlay', 's_from_items', 's_from_list',
        'f_reindex', 'f_shift', 'f_concat0', 'f_concat1', 'f_assign_el', 'f_assign_arr', 'f_assign_series', 'f_assign_bloc', 'f_fillna', 'f_fillna_sided',
        'f_row', 'f_values', 'f_iter_array1', 'f_from_records', 'f_from_records_mixed', 'f_from_dict_records', 'f_from_items', 'f_insert', 'f_overlay',
-       'go_setitem', 'go_extend', 'ix_append', 'ix_fillna', 'f_relabel_shift', 'f_unset_index', 'f_pivot_stack', 'f_pivot_unstack', 'f_pivot_unstack_ragged')
+       'go_setitem', 'go_extend', 'ix_append', 'ix_fillna', 'f_relabel_shift', 'f_unset_index', 'f_pivot_stack', 'f_pivot_unstack', 'f_pivot_unstack_ragged',
+       'go_values', 'go_iter_array1', 'go_iter_tuple1', 'go_transpose')
 
 
 def _str_or_bytes(k):
@@ -323,6 +324,25 @@ def check(case):
             else:
                 _series_cells(f['y'].iloc[:n - 1], lb[:n - 1], op + '.y', cells)
             dts.append((f['x'].dtype, a.dtype, op + ' untouched column x'))
+        elif op in ('go_values', 'go_iter_array1', 'go_iter_tuple1', 'go_transpose'):
+            # rows consolidated from a frame that was grown after construction (its row dtype is kept up incrementally)
+            f = sf.FrameGO.from_items((('x', a),), index=idx)
+            f['y'] = b
+            p = i % n
+            if op == 'go_values':
+                v = f.values
+                for q in range(n):
+                    _cmp(arr_list(v[q])[0], la[q], '%s[%d,0]' % (op, q), cells)
+                    _cmp(arr_list(v[q])[1], lb[q], '%s[%d,1]' % (op, q), cells)
+            else:
+                if op == 'go_iter_array1':
+                    row = arr_list(list(f.iter_array(axis=1))[p])
+                elif op == 'go_iter_tuple1':
+                    row = arr_list(np.array(list(f.iter_series(axis=1))[p].values))
+                else:
+                    row = arr_list(f.transpose().iloc[:, p].values)
+                _cmp(row[0], la[p], '%s[%d,0]' % (op, p), cells)
+                _cmp(row[1], lb[p], '%s[%d,1]' % (op, p), cells)
         elif op == 'go_extend':
             f = sf.FrameGO.from_items((('x', a),), index=idx)
             f.extend(sf.Frame.from_items((('y', b),), index=[q + 1 for q in idx]), fill_value=eb)
